@@ -277,12 +277,15 @@ M_OpenStore ==
           /\ vfsW' = FALSE /\ mpc' = "idle" /\ cur' = Nil
           /\ UNCHANGED <<vfsText, vfsVer, opened, pending, loaded, diagTodo>>
      ELSE IF cur.k = "wchg" /\ (opened[d] \/ ~onDisk[d])
-     THEN \* opened: skipped; vanished: treated as DELETED (remove_uri, no apply)
-          /\ vfsText' = IF opened[d] THEN vfsText ELSE [vfsText EXCEPT ![d] = Absent]
-          /\ vfsVer' = IF opened[d] \/ vfsText[d] = Absent THEN vfsVer ELSE [vfsVer EXCEPT ![d] = @ + 1]
-          /\ pending' = IF opened[d] \/ vfsText[d] = Absent THEN pending ELSE pending \cup {d}
-          /\ vfsW' = FALSE /\ mpc' = "idle" /\ cur' = Nil
-          /\ UNCHANGED <<opened, loaded, alive, diagTodo>>
+     THEN \* opened: skipped; vanished: treated as DELETED (remove_uri; applied like a deletion - before the F44 repair it was not)
+          LET rm == ~opened[d] /\ vfsText[d] # Absent
+              apply == rm /\ ~PreFixWDel
+          IN /\ vfsText' = IF opened[d] THEN vfsText ELSE [vfsText EXCEPT ![d] = Absent]
+             /\ vfsVer' = IF rm THEN [vfsVer EXCEPT ![d] = @ + 1] ELSE vfsVer
+             /\ pending' = IF rm THEN pending \cup {d} ELSE pending
+             /\ vfsW' = apply /\ mpc' = (IF apply THEN "stored" ELSE "idle") /\ cur' = (IF apply THEN cur ELSE Nil)
+             /\ diagTodo' = {}
+             /\ UNCHANGED <<opened, loaded, alive>>
      ELSE /\ vfsText' = [x \in Docs |-> StripCR(IF cur.k = "wchg" /\ x = d THEN DiskText(d) ELSE LoadPkg(d)[x])]
           /\ vfsVer' = [x \in Docs |-> IF vfsText'[x] # vfsText[x] \/ x = d THEN vfsVer[x] + 1 ELSE vfsVer[x]]
           /\ pending' = pending \cup {x \in Docs : vfsText'[x] # vfsText[x] \/ x = d}
